@@ -44,8 +44,14 @@ def one(job):
     seed, ntls, nquic = job[:3]
     rng = random.Random(seed)
     mode = job[3] if len(job) > 3 else "plain"
+    kw = {}
+    if mode == "retransmit":
+        # every TLS connection gets TCP delivery effects: duplicates, displacements and repacketised retransmissions
+        # (a later segment that starts at an earlier segment's sequence number and covers it and its successor);
+        # QUIC connections get reordered 1-RTT datagrams
+        kw = {"resched": 1.0, "repack": 0.5, "quic_features": [{"reorder": True} for _ in range(nquic)]}
     mx = e2e.Mixed(rng, [e2e.random_combo(rng) for _ in range(ntls)], n_quic=nquic, noise=False,
-                   tls_app=[e2e.random_app(rng, 3, 6, big=0.0) for _ in range(ntls)])
+                   tls_app=[e2e.random_app(rng, 3, 6, big=0.0) for _ in range(ntls)], **kw)
     if mode == "reuse" and mx.tls:
         # a second connection on the same 4-tuple after the first one (client port reuse): appended packet by packet
         import gen_tls
@@ -99,8 +105,8 @@ def one(job):
 
 def explore(ctx, scale=1):
     rng = ctx.rng
-    n = ctx.n(15, 300) * scale
-    jobs = [(rng.getrandbits(48), *([(1, 0), (0, 1), (2, 0), (1, 1)][i % 4]), ["plain", "clock", "reuse", "plain", "clock"][i % 5])
+    n = ctx.n(18, 300) * scale
+    jobs = [(rng.getrandbits(48), *([(1, 0), (0, 1), (2, 0), (1, 1)][i % 4]), ["plain", "clock", "reuse", "retransmit", "clock", "retransmit"][i % 6])
             for i in range(n)]
     results = tool.pmap(one, jobs, procs=16 if ctx.thorough() else 8)
     o = ctx.oracle.setdefault("every-cut", {"runs": 0, "violations": 0})
@@ -127,7 +133,7 @@ def explore(ctx, scale=1):
 
 def run(ctx):
     ctx.rule = ("captures with one or two connections (TLS of random version/suite with random segmentation, QUIC v1 with "
-                "random features); variants: capture clock stepping back (timestamps not monotonic in file order), a second connection re-using the 4-tuple; the tool is run on capture[:n] for EVERY n = 0..N and each result compared with the full "
+                "random features); variants: TCP retransmissions incl. repacketised ones and reordered QUIC 1-RTT datagrams, capture clock stepping back (timestamps not monotonic in file order), a second connection re-using the 4-tuple; the tool is run on capture[:n] for EVERY n = 0..N and each result compared with the full "
                 "run. An evaluation is one cut; a cut is non-trivial iff it leaves some flow with part, but not all, of "
                 "its exportable data (cut inside a handshake-complete connection, inside a multi-packet record, between "
                 "coalesced flights or after a key change).")
